@@ -452,7 +452,14 @@ def evaluate(prob, row, flags=(), solver="twobody", want_posterior=False, full_t
     if full_tol:
         tol_of(out)
     if want_posterior:
-        out["a"], out["A"] = posterior(prob.y, var, M, mu, Lam)
+        try:
+            out["a"], out["A"] = posterior(prob.y, var, M, mu, Lam)
+        except np.linalg.LinAlgError:
+            # the precision matrix cannot be factored even in extended precision (prior variances dozens of orders of
+            # magnitude apart): no reference for the conditional posterior, comparisons with it are "not judged"
+            out["singular"] = True
+            out["a"] = np.full(len(mu), np.nan)
+            out["A"] = np.full((len(mu), len(mu)), np.nan)
     return out
 
 
@@ -479,7 +486,12 @@ def posterior_ratio(ev, a_code, A_code, cond_floor=0.0):
     dA = np.sqrt(np.abs(np.diag(A)))
     # floor 1e-9 (in units of the posterior standard deviations): LAPACK inverts the badly scaled precision
     # matrix with errors that are tiny norm-wise but up to ~1e-11 relative to sqrt(A_ii A_jj)
-    c = TOL_C * EPS * max(condA, cond_floor, 1.0) + 1e-9
+    # badly scaled posteriors (standard deviations of the linear parameters many orders of magnitude apart, e.g. a t^4 trend
+    # coefficient next to K): the kernel's LU-based inverse is not invariant under diagonal scaling, its small cross terms
+    # carry errors of order eps * (largest / smallest standard deviation) relative to sqrt(A_ii A_jj)
+    pos = dA[dA > 0]
+    spread = float(pos.max() / pos.min()) if pos.size else 1.0
+    c = TOL_C * EPS * max(condA, cond_floor, spread, 1.0) + 1e-9
     scaleA = np.outer(dA, dA)
     tolA = c * scaleA + 1e-300
     free = ev["Lam"] > 0
